@@ -7,8 +7,8 @@ ID=$1; ROUND=${2:-}; SUF=${3:-}; WT=/tmp/seed${ROUND}_$ID; OUT=/verif/seeded/$ID
 mkdir -p $OUT
 cd $WT
 git diff -- . ':(exclude)seed_demo*' > $OUT/patch.diff
-for f in seed_demo.py seed_demo.cpp seed_demo.sh; do [ -f $f ] && cp $f $OUT/; done
-run_demo() { if [ -f seed_demo.sh ]; then sh seed_demo.sh; else PYTHONPATH=$WT/py /venv/bin/python seed_demo.py; fi; }
+for f in seed_demo*; do [ -e "$f" ] && cp -r "$f" $OUT/; done
+run_demo() { if [ -f seed_demo.sh ]; then bash seed_demo.sh; else PYTHONPATH=$WT/py /venv/bin/python seed_demo.py; fi; }
 set +e
 run_demo > /tmp/seed_${ID}${SUF}_with.log 2>&1; WITH=$?
 git stash -q
